@@ -764,7 +764,8 @@ func (c *moduleConfig) WithName(name string) ModuleConfig {
 // WithStartFunctions implements ModuleConfig.WithStartFunctions
 func (c *moduleConfig) WithStartFunctions(startFunctions ...string) ModuleConfig {
 	ret := c.clone()
-	ret.startFunctions = startFunctions
+	// Copied, as the variadic argument may be a slice the caller keeps using.
+	ret.startFunctions = append([]string(nil), startFunctions...)
 	return ret
 }
 
